@@ -116,10 +116,35 @@ HEX = "0123456789ABCDEF"
 NON = "--:------"
 
 
+_RECENT_IDS: list = []
+
+
+def other_spellings(dev_id: str) -> list[str]:
+    """The other id texts with the same 24-bit wire value (the number field is six decimal digits: numbers above 262143
+    spill into the type bits, so 01:300000 and 02:037856 are one value on the wire - and two ids as text)."""
+    t, n = int(dev_id[:2]), int(dev_id[3:])
+    wire = (t << 18) + n
+    out = []
+    for t2 in range(max(0, t - 4), min(64, t + 5)):
+        n2 = wire - (t2 << 18)
+        if 0 <= n2 <= 999999 and t2 != t:
+            out.append(f"{t2:02d}:{n2:06d}")
+    return out
+
+
 def gen_id(rnd: random.Random, types=None) -> str:
+    if types is None and _RECENT_IDS and rnd.random() < 0.08:
+        tw = other_spellings(rnd.choice(_RECENT_IDS[-50:]))      # an id seen a moment ago, in its other spelling
+        tw = [x for x in tw if x != "63:262142"]
+        if tw:
+            return rnd.choice(tw)
     t = rnd.choice(types) if types else rnd.randrange(64)
     n = rnd.choice((rnd.randrange(2**18), rnd.randrange(1000000), 0, 730, 262142, 999999))
-    return f"{int(t):02d}:{n:06d}"
+    out = f"{int(t):02d}:{n:06d}"
+    if types is None:
+        _RECENT_IDS.append(out)
+        del _RECENT_IDS[:-200]
+    return out
 
 
 def gen_addrs(rnd: random.Random) -> tuple[str, str, str]:
